@@ -383,6 +383,8 @@ class SymExec:
         if not (self.effects and isinstance(call, ast.Call)):
             return None
         c2 = self.subst(call, p.env)
+        if not isinstance(c2, ast.Call):
+            return None
         hp = self.helper_paths(c2, p.env, with_effects=True)
         if hp is None or not any(q.stores or q.calls or q.events for q in hp):
             return None
@@ -621,6 +623,16 @@ def simplify(e):
                and sl.lower.value > 0:
                 return simplify(ast.Subscript(value=n.value.value, slice=ast.BinOp(left=n.slice, op=ast.Add(), right=sl.lower),
                                               ctx=ast.Load()))
+        if isinstance(n, ast.Call) and isinstance(n.func, ast.Lambda) and not n.keywords and \
+           not any(isinstance(a, ast.Starred) for a in n.args):
+            la = n.func.args
+            params = [a.arg for a in la.posonlyargs + la.args]
+            if len(params) == len(n.args) and not la.vararg and not la.kwarg and not la.kwonlyargs:
+                # applying a lambda that was handed in as an argument: its body with the arguments in place
+                bind = dict(zip(params, n.args))
+                body = copy_replace(n.func.body, lambda x: bind.get(x.id) if isinstance(x, ast.Name) and
+                                    isinstance(x.ctx, ast.Load) and x.id in bind else None)
+                return simplify(body)
         if isinstance(n, ast.Call) and isinstance(n.func, ast.Name) and n.func.id == 'len' and len(n.args) == 1 \
            and not n.keywords:
             a = simplify(n.args[0])
